@@ -43,6 +43,7 @@ class Stats:
         self.transitions = 0  # executed transitions of the explored system
         self.validated = 0  # executions compared against an oracle
         self.states = set()  # 64-bit hashes of canonical states
+        self.states_by_construction = 0  # states that are distinct by construction (counted, not hashed)
         self.nontrivial = set()  # hashes of distinct non-trivial cases (rule per check)
         self.outcomes = collections.Counter()  # observed outcome classes
         self.counters = collections.Counter()  # misc measured counts (filtered, out of scope..)
@@ -91,6 +92,7 @@ class Stats:
         self.transitions += other.transitions
         self.validated += other.validated
         self.states |= other.states
+        self.states_by_construction += other.states_by_construction
         self.nontrivial |= other.nontrivial
         self.outcomes.update(other.outcomes)
         self.counters.update(other.counters)
